@@ -241,8 +241,18 @@ class Model:
             from .inventory import FUNCTIONS, MODULE_NAMES
         except ImportError:
             return
-        from .inline import MAX_ROUNDS, desugar_ifexp, desugar_match, desugar_exitstacks, desugar_partials_and_extends, desugar_return_all_any, dissolve_new_cm_classes, drop_absorbed_helpers, erase_new_namedtuples, inline_new_helpers, scalarise_local_dicts, unroll_new_tables, propagate_new_constants
+        from .inline import MAX_ROUNDS, dissolve_parameter_objects, fold_after_inlining, propagate_local_aliases, desugar_ifexp, desugar_match, desugar_exitstacks, desugar_partials_and_extends, desugar_return_all_any, dissolve_new_cm_classes, drop_absorbed_helpers, erase_new_namedtuples, inline_new_helpers, scalarise_local_dicts, unroll_new_tables, propagate_new_constants
 
+        # functions whose source differs from the pinned tree (digest of ast.dump): only those are rewritten by the
+        # statement-level normalisations that would otherwise also touch pinned code
+        try:
+            from .inventory import HASHES
+        except ImportError:
+            HASHES = {}
+        import hashlib
+
+        self.changed_functions = {q for q, f_ in self.functions.items() if not f_.module.short.startswith("_typeguard")
+                                  and HASHES.get(q) != hashlib.sha1(ast.dump(f_.node).encode()).hexdigest()[:12]}
         if desugar_match(self):
             self._reindex()
         if desugar_ifexp(self):
@@ -256,6 +266,12 @@ class Model:
         if self.namedtuples_erased:
             self._reindex()
 
+        self.records_dissolved = dissolve_parameter_objects(self, MODULE_NAMES)
+        if self.records_dissolved:
+            self._reindex()
+        self.aliases_propagated = propagate_local_aliases(self, self.changed_functions) if self.changed_functions else []
+        if self.aliases_propagated:
+            self._reindex()
         self.cms_dissolved = []
         for _ in range(4):
             d_ = dissolve_new_cm_classes(self, MODULE_NAMES)
@@ -280,6 +296,8 @@ class Model:
             self.inlined += changed
             self._reindex()
         if self.inlined:
+            if fold_after_inlining(self, self.inlined):
+                self._reindex()
             self.absorbed = drop_absorbed_helpers(self, FUNCTIONS)
             if self.absorbed:
                 self._reindex()
